@@ -84,7 +84,9 @@ def cases(rng, tier):
                          force_parts={'records_camera', 'keypoints'},
                          forbid_parts={'records_wifi', 'records_bluetooth', 'records_gnss', 'records_accelerometer',
                                        'records_gyroscope', 'records_magnetic', 'records_lidar', 'records_depth', 'rigs', 'trajectories'})
-        out.append({'op': 'store', 'd': kgen.gen_dataset(rng, opts)})
+        # how the folder is packed: bare member names (what add_array_to_tar writes), or what `tar -cf x.tar -C folder .`
+        # produces (a '.' entry, directory entries, './'-prefixed names), or names with a doubled / and a './' inside
+        out.append({'op': 'store', 'd': kgen.gen_dataset(rng, opts), 'pack': rng.choice(['bare', 'dot', 'dot', 'odd'])})
     return out
 
 
@@ -157,9 +159,17 @@ def _store(c):
                             files.append(os.path.relpath(os.path.join(dp, fn), tdir))
                 if not files:
                     continue
+                style = c.get('pack', 'bare')
                 with tarfile.open(os.path.join(tdir, kind + '.tar'), 'w') as tf:
+                    if style == 'dot':
+                        tf.add(tdir, arcname='.', recursive=False)
+                        for dp, dns, _ in os.walk(tdir):
+                            for dn in sorted(dns):
+                                tf.add(os.path.join(dp, dn), arcname='./' + os.path.relpath(os.path.join(dp, dn), tdir), recursive=False)
                     for rel in sorted(files):
-                        tf.add(os.path.join(tdir, rel), arcname=rel)
+                        arc = rel if style == 'bare' else './' + rel if style == 'dot' else \
+                            ('./' + rel).replace('/', '//', 1) if '/' not in rel else rel.replace('/', '/./', 1)
+                        tf.add(os.path.join(tdir, rel), arcname=arc)
                 for rel in files:
                     os.remove(os.path.join(tdir, rel))
                 packed.append(f'{kind}/{ty}:{len(files)}')
